@@ -14,8 +14,14 @@ thread_local! {
     /// appender names and logger names are separate namespaces (ConfigBuild.tla keeps them apart by construction);
     /// when set, the appender namespace is renamed so that its names are exactly the strings logger names are made of
     static COLLIDE: std::cell::Cell<bool> = std::cell::Cell::new(false);
+    /// ... and in some cases one appender's name is the empty string (a name like any other: ConfigBuild.tla's names
+    /// are opaque)
+    static EMPTY_NAME: std::cell::Cell<bool> = std::cell::Cell::new(false);
 }
 fn app_name(n: &str) -> String {
+    if EMPTY_NAME.with(|c| c.get()) && n == "A" {
+        return String::new();
+    }
     if !COLLIDE.with(|c| c.get()) {
         return n.to_string();
     }
@@ -114,6 +120,7 @@ fn check_errs(got: &BTreeSet<(String, String)>, case: &Value, which: &str) -> Op
 
 fn check_case(ci: usize, case: &Value) -> Option<Value> {
     COLLIDE.with(|c| c.set((ci / 3) % 2 == 1));
+    EMPTY_NAME.with(|c| c.set((ci / 7) % 3 == 1));
     // lossy
     let (b, root) = builder(case, ci);
     let (cfg, errs) = match catch(|| b.build_lossy(root)) {
